@@ -48,7 +48,16 @@ std::string replay_to_json(const Plan& p, const Violation& v, uint64_t trace_has
 int shrink_main(const Plan& p0, const std::string& sig, const std::string& out, int budget) {
     Violation v; uint64_t h = 0;
     int reruns = 0;
-    auto test = [&](const Plan& p) { ++reruns; return fails_with(p, sig, &v, &h); };
+    // every candidate is written down before it runs: if it kills the process (sanitizer report, abort), the driver finds the
+    // plan that did it in <out>.cand and reports it as a crash of its own
+    std::string cand = out.empty() ? std::string() : out + ".cand";
+    auto test = [&](const Plan& p) {
+        ++reruns;
+        if (!cand.empty()) { std::ofstream f(cand); f << plan_to_json(p) << "\n"; }
+        bool r = fails_with(p, sig, &v, &h);
+        if (!cand.empty()) std::remove(cand.c_str());
+        return r;
+    };
     if (!test(p0)) { fprintf(stderr, "shrink: plan does not fail with %s\n", sig.c_str()); return 3; }
     // determinism gate: same plan twice, same hash
     { uint64_t h2 = 0; Violation v2; if (!fails_with(p0, sig, &v2, &h2) || h2 != h) { fprintf(stderr, "shrink: non-deterministic (hash %llx vs %llx)\n", (unsigned long long)h, (unsigned long long)h2); return 2; } }
